@@ -24,7 +24,7 @@ RowRound == /\ RowIndex(RowLabel(i)) = i
 (* patterns, both cases                                                    *)
 Written(ca, ra, low) ==
   (IF ca THEN <<36>> ELSE <<>>) \o (IF low THEN LowerS(ColLabel(i)) ELSE ColLabel(i))
-     \o (IF ra THEN <<36>> ELSE <<>>) \o RowLabel((i * 7919) % 1048576)
+     \o (IF ra THEN <<36>> ELSE <<>>) \o RowLabel((i * 4001) % 1048576)
 ShapeRound ==
   \A ca \in BOOLEAN, ra \in BOOLEAN, low \in BOOLEAN :
      LET w == Written(ca, ra, low)
@@ -32,6 +32,6 @@ ShapeRound ==
      IN /\ IsLabel(w)
         /\ p.cabs = ca /\ p.rabs = ra
         /\ ColIndex(p.letters) = i
-        /\ RowIndex(p.digits) = (i * 7919) % 1048576
+        /\ RowIndex(p.digits) = (i * 4001) % 1048576
         /\ Recompose(p) = Written(ca, ra, FALSE)
 =============================================================================
